@@ -511,6 +511,12 @@ func c03ApiModelLeg(t *testing.T, out string, seed int64, thorough bool) {
 				if len(linked) > 0 {
 					return pick(linked)
 				}
+			case 3: // a sibling spelling of a kid that HAS a key: must be an unknown kid to the wrapper and the key store
+				k := pick(kids)
+				if len(k) < 2 {
+					return k + " "
+				}
+				return pick([]string{k + " ", " " + k, k + "\n", "\t" + k, strings.ToUpper(k), strings.ToLower(k), k + "0", k[:len(k)-1], strings.Replace(k, "#", "%23", 1), k + "#"})
 			}
 			return pick(kids)
 		}
